@@ -139,7 +139,7 @@ package kapacitor
 
 // influxql prints binary expressions without parentheses and AND binds tighter than OR, so an
 // operand of AND must not itself be an OR expression (it must be parenthesised or bind tighter).
-//@ spec andSafe(e influxql.Expr) bool = typeis(e, *influxql.BinaryExpr) ==> as(e, *influxql.BinaryExpr).Op != influxql.OR
+//@ spec andSafe(e influxql.Expr) bool = typeis(e, *influxql.BinaryExpr) && as(e, *influxql.BinaryExpr) != nil ==> as(e, *influxql.BinaryExpr).Op != influxql.OR
 
 // "selects data with time in [stop-period, stop) ... whatever WHERE clause the user wrote,
 // keeping the user's conditions intact": the final condition is either the time range, or
